@@ -565,10 +565,19 @@ class CodeBuilder:
                     # type hints follow the annotations of every base class,
                     # dataclass fields only those of dataclass bases, so a
                     # value is passed positionally only while both agree
+                    # (a member that a subclass re-annotates without a value
+                    # keeps the position it inherited, although it has no
+                    # entry of its own in dataclass_fields)
+                    init_flags = {
+                        field.name: field.init
+                        for ancestor in self.cls.__mro__[-1:0:-1]
+                        if is_dataclass(ancestor)
+                        for field in getattr(ancestor, _FIELDS).values()
+                    }
+                    for name, field in self.dataclass_fields.items():
+                        init_flags[name] = field.init
                     init_params = [
-                        name
-                        for name, field in self.dataclass_fields.items()
-                        if field.init
+                        name for name, init in init_flags.items() if init
                     ]
                     for field_block in field_blocks:
                         self.lines.extend(field_block.lines)
